@@ -8,6 +8,7 @@ package main
 
 import (
 	"fmt"
+	"go/token"
 	"go/types"
 	"sort"
 	"strings"
@@ -338,4 +339,192 @@ func ruleLockOrder(w *World, r *Report, rule string, inScope func(pkgPath string
 	}
 	r.Check(len(cyc) == 0, rule, "lockorder:"+fmt.Sprint(len(fl))+"-mutex-fields", "-", fmt.Sprintf("%d mutex field(s), %d held-while-acquiring edge(s), no cycle: %s", len(fl), len(edges), strings.Join(es, "; ")),
 		"mutexes can be acquired in opposite orders by two goroutines (deadlock): "+strings.Join(cyc, " ; "))
+}
+
+// waitsIn: does fn, through synchronous module calls, reach an operation that parks the goroutine until
+// somebody else acts (channel send/receive, blocking select, sync Wait, time.Sleep, a peer read)?
+func waitsIn(w *World, fn *ssa.Function, seen map[*ssa.Function]bool, depth int) []string {
+	if fn == nil || seen[fn] || depth > 8 || len(fn.Blocks) == 0 {
+		return nil
+	}
+	seen[fn] = true
+	for _, b := range fn.Blocks {
+		for _, in := range b.Instrs {
+			switch x := in.(type) {
+			case *ssa.Send:
+				if !bufferedLocalChan(x.Chan) {
+					return []string{ssaFuncKey(fn) + " (channel send)"}
+				}
+			case *ssa.UnOp:
+				if x.Op == token.ARROW {
+					return []string{ssaFuncKey(fn) + " (channel receive)"}
+				}
+			case *ssa.Select:
+				if x.Blocking {
+					return []string{ssaFuncKey(fn) + " (blocking select)"}
+				}
+			case ssa.CallInstruction:
+				if _, isGo := x.(*ssa.Go); isGo {
+					continue
+				}
+				if _, isDefer := x.(*ssa.Defer); isDefer {
+					continue
+				}
+				f := sCallee(x)
+				if f != nil && f.Pkg() != nil {
+					if f.Pkg().Path() == "sync" && f.Name() == "Wait" {
+						return []string{ssaFuncKey(fn) + " (sync Wait)"}
+					}
+					if f.Pkg().Path() == "time" && f.Name() == "Sleep" {
+						return []string{ssaFuncKey(fn) + " (time.Sleep)"}
+					}
+				}
+				if p := blockingPrimitive(x); p != "" {
+					return []string{ssaFuncKey(fn) + " (" + p + ")"}
+				}
+				for _, callee := range syncCallees(w, x) {
+					if chain := waitsIn(w, callee, seen, depth+1); chain != nil {
+						return append([]string{ssaFuncKey(fn)}, chain...)
+					}
+				}
+			}
+		}
+	}
+	return nil
+}
+
+// bufferedLocalChan: a send on a channel created with a constant capacity >= 1 — in the same function, or
+// stored into the struct field it is loaded from by every writer of that field — is treated as a mailbox
+// post that does not park (trusted: the mailbox is sized for its producers, e.g. one slot per table entry).
+func bufferedLocalChan(ch ssa.Value) bool {
+	okAll, n := true, 0
+	for _, root := range provenance(ch, provOpts{}) {
+		n++
+		switch x := root.(type) {
+		case *ssa.MakeChan:
+			if k, ok := constIntVal(x.Size); !ok || k < 1 {
+				okAll = false
+			}
+		case *ssa.UnOp:
+			fa := asFieldAddr(x.X)
+			if fa == nil || fieldVarOf(fa) == nil || lockWorld == nil {
+				okAll = false
+				continue
+			}
+			fv := fieldVarOf(fa)
+			stores := 0
+			for fn := range allModuleFuncs(lockWorld, lockWorld.SSA()) {
+				allInstrs(fn, func(in ssa.Instruction) {
+					st, ok := in.(*ssa.Store)
+					if !ok {
+						return
+					}
+					if fa2 := asFieldAddr(st.Addr); fa2 != nil && fieldVarOf(fa2) == fv {
+						stores++
+						mk, ok := st.Val.(*ssa.MakeChan)
+						if !ok {
+							okAll = false
+							return
+						}
+						if k, ok := constIntVal(mk.Size); !ok || k < 1 {
+							okAll = false
+						}
+					}
+				})
+			}
+			if stores == 0 {
+				okAll = false
+			}
+		default:
+			okAll = false
+		}
+	}
+	return okAll && n > 0
+}
+
+var lockWorld *World
+
+// ruleNoWaitUnderLock: while one of the given mutex fields is held, nothing is called that can wait for
+// another party.
+func ruleNoWaitUnderLock(w *World, r *Report, rule string, isWideLock func(m *types.Var) bool, consequence string) {
+	lockWorld = w
+	type res struct {
+		n   int
+		bad []string
+		pos string
+	}
+	byField := map[string]*res{}
+	for fn := range allModuleFuncs(w, w.SSA()) {
+		fields := map[*types.Var]bool{}
+		for _, c := range callsIn(fn) {
+			f := sCallee(c)
+			if (isMethod(f, "sync", "Mutex", "Lock") || isMethod(f, "sync", "RWMutex", "Lock")) && len(c.Common().Args) > 0 {
+				if m := mutexFieldOf(c.Common().Args[0]); m != nil && isWideLock(m) {
+					fields[m] = true
+				}
+			}
+		}
+		for m := range fields {
+			region, _ := lockRegion(fn, func(v ssa.Value) bool { return mutexFieldOf(v) == m })
+			key := "mutex:" + fieldOwner(m) + "." + m.Name() + "|no-wait"
+			rs := byField[key]
+			if rs == nil {
+				rs = &res{pos: w.Pos(m.Pos())}
+				byField[key] = rs
+			}
+			for _, b := range fn.Blocks {
+				for _, in := range b.Instrs {
+					if !region[in] {
+						continue
+					}
+					switch x := in.(type) {
+					case *ssa.Send:
+						if !bufferedLocalChan(x.Chan) {
+							rs.bad = append(rs.bad, fmt.Sprintf("%s: %s sends on a channel while holding %s: %s", w.Pos(in.Pos()), ssaFuncKey(fn), m.Name(), consequence))
+						}
+					case *ssa.UnOp:
+						if x.Op == token.ARROW {
+							rs.bad = append(rs.bad, fmt.Sprintf("%s: %s receives from a channel while holding %s: %s", w.Pos(in.Pos()), ssaFuncKey(fn), m.Name(), consequence))
+						}
+					case *ssa.Select:
+						if x.Blocking {
+							rs.bad = append(rs.bad, fmt.Sprintf("%s: %s blocks in a select while holding %s: %s", w.Pos(in.Pos()), ssaFuncKey(fn), m.Name(), consequence))
+						}
+					case ssa.CallInstruction:
+						if _, isGo := x.(*ssa.Go); isGo {
+							continue
+						}
+						f := sCallee(x)
+						if f != nil && f.Pkg() != nil && f.Pkg().Path() == "sync" {
+							continue
+						}
+						rs.n++
+						if p := blockingPrimitive(x); p != "" {
+							rs.bad = append(rs.bad, fmt.Sprintf("%s: %s calls %s while holding %s: %s", w.Pos(in.Pos()), ssaFuncKey(fn), p, m.Name(), consequence))
+							continue
+						}
+						for _, callee := range syncCallees(w, x) {
+							if chain := waitsIn(w, callee, map[*ssa.Function]bool{}, 0); chain != nil {
+								rs.bad = append(rs.bad, fmt.Sprintf("%s: %s calls %s while holding %s: %s", w.Pos(in.Pos()), ssaFuncKey(fn), strings.Join(chain, " -> "), m.Name(), consequence))
+							}
+						}
+					}
+				}
+			}
+		}
+	}
+	if len(byField) == 0 {
+		r.Undecided(rule, "mutex:*|no-wait", "-", "none of the listener-wide mutexes is locked anywhere (anchors moved?)")
+		return
+	}
+	var keys []string
+	for k := range byField {
+		keys = append(keys, k)
+	}
+	sort.Strings(keys)
+	for _, k := range keys {
+		rs := byField[k]
+		sort.Strings(rs.bad)
+		r.Check(len(rs.bad) == 0, rule, k, rs.pos, fmt.Sprintf("%d call(s) made while the mutex is held, none can wait for another party", rs.n), strings.Join(rs.bad, "; "))
+	}
 }
